@@ -18,7 +18,38 @@ _K3_NOTE = ("Trusted: the rxvc VC generator; z3/cvc5; A-gil (a single attribute 
             "(bounded: <=2 preemptions) - that part is a replay search, not proof.")
 _K3_TECH = "K3 monitor invariant + rely/guarantee interference + ghost token accounting, per critical section, SMT-discharged"
 
+_K2_NOTE = ("Trusted: the rxvc VC generator; z3/cvc5; the spec machines in /verif/specs/c20.py are the specification (state + who "
+            "receives what on each call, taken from the property statement); A-exc (an exception instance is truthy and not None). "
+            "Sequential histories (the property quantifies histories, not threads); re-entrancy from callbacks is covered by the "
+            "call-out discipline: the coupling invariant is proved at every call-out, call-outs may raise, and loops that call out "
+            "must iterate a snapshot. Subscribers are opaque objects here; that each of them is silenced after unsubscribing is the "
+            "AutoDetachObserver clause of C01. Counter-models are replayed by a native history runner (bounded).")
+_K2_TECH = "K2 class refinement against a spec machine with the call-out discipline (invariant at every call-out), SMT-discharged"
+
 CHECKS = {
+    "C20": {
+        "text": "Every method of the real Subject (subscribe core, InnerSubscription.dispose, on_next/on_error/on_completed with the "
+                "inherited Observer gates, dispose) is proved to refine the spec machine from an arbitrary state satisfying the coupling "
+                "invariant: same call-outs to the same observers (a broadcast is one event over the value of the snapshot list), same "
+                "exception (DisposedException after dispose), invariant re-established at exit and already true at every call-out, so "
+                "re-entrant subscribe/unsubscribe/dispose from callbacks see a consistent subject. Inductive over call histories of any length.",
+        "note": _K2_NOTE,
+        "technique": _K2_TECH,
+    },
+    "C21": {
+        "text": "As C20 for BehaviorSubject with the current value in the abstract state: a new subscriber first receives the current value "
+                "(last on_next value or the initial one, None included - values are an uninterpreted sort), the value is already updated "
+                "at the moment observers are notified (invariant at the call-out), after termination only the terminal is delivered.",
+        "note": _K2_NOTE,
+        "technique": _K2_TECH,
+    },
+    "C23": {
+        "text": "As C20 for AsyncSubject with (has_value, value) in the abstract state: on_next delivers nothing, completion delivers the "
+                "last value (if any, None included) then completion to every current observer, error only the error, late subscribers "
+                "the same from the latched state.",
+        "note": _K2_NOTE,
+        "technique": _K2_TECH,
+    },
     "C39": {
         "text": "For every public method of the eleven Observable mixins and every call shape (number of positional arguments x set of "
                 "keywords) accepted by both the method and ops.<same name>, the real method body is executed with symbolic argument "
